@@ -17,6 +17,7 @@ and for every history
   * evaluates the `Audit` predicates on the implementation's observations alone → `A` lines.
 -/
 import Bourse.Model.Ops
+import Bourse.Model.Json
 import Bourse.Spec.Audit
 import Bourse.Spec.Ref
 import Driver.Parse
@@ -221,6 +222,62 @@ def handleObs (st : St) (toks : List String) (out : IO.FS.Stream) : IO St := do
                            hasCancelMod := hasCM, nOps := h.nOps + 1 }
         pure { st with hist := some h', stats := stats, nOps := st.nOps + 1 }
 
+def hexVal (c : Char) : Option Nat :=
+  if '0' ≤ c ∧ c ≤ '9' then some (c.toNat - 48)
+  else if 'a' ≤ c ∧ c ≤ 'f' then some (c.toNat - 87)
+  else none
+
+def unhexAux : List Char → List Char → Option (List Char)
+  | [], acc => some acc.reverse
+  | [_], _ => none
+  | a :: b :: r, acc =>
+    match hexVal a, hexVal b with
+    | some x, some y => unhexAux r (Char.ofNat (16 * x + y) :: acc)
+    | _, _ => none
+
+/-- `-` is the empty text; otherwise two hex digits per byte (the snapshot texts are ASCII). -/
+def unhex (s : String) : Option (List Char) :=
+  if s == "-" then some [] else unhexAux s.toList []
+
+/-- `J` lines (after a `reload`): the JSON text the real `serde_json` wrote for the current book and
+the real loader's verdict on variants of it, compared with `Model/Json.lean`. -/
+def handleJson (st : St) (toks : List String) (out : IO.FS.Stream) : IO St := do
+  match st.hist with
+  | none => pure st
+  | some h =>
+    if h.kDead then pure st else
+    let idx := h.opIdx - 1
+    let bad (what : String) : IO St := do
+      emit out s!"K {h.id} {idx} {what} tr=1 op=reload_json"
+      pure { st with nK := st.nK + 1 }
+    match toks with
+    | ["t", m, hx] =>
+      match unhex hx with
+      | none => bad "json_badhex"
+      | some text =>
+        let mine := Json.saveText h.model (m == "p")
+        if mine != text then bad (if m == "p" then "json_text_pretty" else "json_text_compact")
+        else if Json.loadText text != some h.model then bad "json_load_of_own_text"
+        else pure { st with stats := bump st.stats (if m == "p" then "json:text_pretty_equal" else "json:text_compact_equal") }
+    | ["v", kind, verdict, hx, back] =>
+      match unhex hx, unhex back with
+      | some text, some backText =>
+        let r := Json.loadText text
+        let st := { st with stats := bump st.stats s!"json:variant_{kind}_{verdict}" }
+        if verdict == "panic" then pure st
+        else if verdict == "ok" then
+          let st ← (if kind == "cut" then do
+              emit out s!"A C07 {h.id} {idx} truncated_snapshot_loaded tr=1 op=reload_json"
+              pure { st with nA := st.nA + 1 }
+            else pure st)
+          match r with
+          | none => bad s!"json_variant_{kind}:impl=ok:model=reject"
+          | some b => if Json.saveText b false != backText then bad s!"json_variant_{kind}:loaded_book_differs" else pure st
+        else if r.isSome then bad s!"json_variant_{kind}:impl=err:model=ok"
+        else pure st
+      | _, _ => bad "json_badhex"
+    | _ => bad "json_badline"
+
 partial def loop (inp out : IO.FS.Stream) (st : St) : IO St := do
   let line ← inp.getLine
   if line.isEmpty then return finishHist st
@@ -260,6 +317,7 @@ partial def loop (inp out : IO.FS.Stream) (st : St) : IO St := do
       loop inp out { st with ehist := some eh', stats := stats, nOps := st.nOps + (if tags.isEmpty then 0 else 1),
                              nK := st.nK + nK, nA := st.nA + nA }
     | none => loop inp out (← handleObs st rest out)
+  | "J" :: rest => loop inp out (← handleJson st rest out)
   | "MM" :: rest =>
     let st := finishHist st
     let (lines, tags) := handleMom rest
